@@ -34,7 +34,7 @@ def classify(prog, stats, feats):
 
 
 def run(ctx):
-    return g1check.run(ctx, CFG, quick_n=480, thorough_n=60000, quick_table=3400, quick_shards=16)
+    return g1check.run(ctx, CFG, quick_n=480, thorough_n=60000, quick_table=2200, quick_shards=16)
 
 
 def replay(ctx, data):
